@@ -497,6 +497,12 @@ func vary(prop string, g *kernel.Rng, cfg *Config, evs []Ev) {
 						e.S = 1 + g.U64()%100000
 					}
 				}
+			case "tx":
+				if prop == "C14" && g.Chance(1, 3) {
+					// the tag travels in the transaction's head operation: quotes, backslashes, control
+					// characters, DEL, code points outside the BMP (all valid UTF-8: the plan is a JSON file)
+					e.Tag = txTags[g.Intn(len(txTags))]
+				}
 			case "open":
 				e.K = rename(e.K)
 				if hv && e.Pos != 1 && g.Chance(1, 2) {
@@ -597,3 +603,5 @@ func (c *genCtx) decorate(e *Ev) {
 }
 
 var _ = fmt.Sprint
+
+var txTags = []string{"", "a \"quoted\" tag", "back\\slash \\u0041", "tab\tnewline\n", "\x01", "bell\a", "del\x7f", "\U000e0001 tag", "日本語 ✓ 😀", "</script>&amp;", "{\"Tag\":1}"}
